@@ -45,7 +45,8 @@ class Raised(Exception):
 PURE_BUILTINS = {"abs": abs, "min": min, "max": max, "len": len, "tuple": tuple, "list": list,
                  "sorted": sorted, "bool": bool, "sum": sum, "any": any, "all": all, "set": set,
                  "range": range, "enumerate": enumerate, "zip": zip, "reversed": reversed, "int": int, "round": round,
-                 "float": float, "isinstance": None, "id": id, "map": map, "str": str, "Fraction": Fr}
+                 "float": float, "isinstance": None, "id": id, "map": map, "str": str, "Fraction": Fr, "iter": iter, "next": next, "divmod": divmod, "pow": pow, "hasattr": hasattr,
+                 "dict": dict, "frozenset": frozenset, "repr": repr}
 
 
 CONTAINER_METHODS = {"append", "pop", "remove", "insert", "add", "index", "count", "extend", "sort", "reverse", "copy",
@@ -240,6 +241,12 @@ class Ev:
             return tuple(self.ev(x) for x in e.elts)
         if isinstance(e, ast.List):
             return [self.ev(x) for x in e.elts]
+        if isinstance(e, ast.Dict):
+            return {self.ev(k): self.ev(v) for k, v in zip(e.keys, e.values) if k is not None}
+        if isinstance(e, ast.Set):
+            return {self.ev(x) for x in e.elts}
+        if isinstance(e, ast.JoinedStr):
+            return "<f-string>"
         if isinstance(e, ast.BoolOp):
             v = None
             for x in e.values:
@@ -284,6 +291,17 @@ class Ev:
                 if h is not NotImplemented:
                     return h
             raise Undecided("attribute " + U(e))
+        if isinstance(e, ast.Lambda):
+            params = [a.arg for a in e.args.args]
+            outer = self
+
+            def fn(*vals):
+                sub = Ev(dict(outer.env), hook=outer.hook, attr_hook=outer.attr_hook, asserts=outer.asserts,
+                         store_hook=outer.store_hook)
+                for p, v in zip(params, vals):
+                    sub.env[p] = v
+                return sub.ev(e.body)
+            return fn
         if isinstance(e, (ast.GeneratorExp, ast.ListComp)):
             out = []
             self._comp(e, 0, out)
@@ -303,6 +321,9 @@ class Ev:
                     return h
             if isinstance(e.func, ast.Name) and PURE_BUILTINS.get(e.func.id) is not None and not kwargs:
                 return PURE_BUILTINS[e.func.id](*args)
+            if isinstance(e.func, ast.Name) and e.func.id == "isinstance" and len(args) == 2 and (
+                    isinstance(args[1], type) or (isinstance(args[1], tuple) and all(isinstance(t, type) for t in args[1]))):
+                return isinstance(args[0], args[1])
             if isinstance(e.func, ast.Name) and e.func.id == "sorted":
                 return sorted(*args, **kwargs)
             if isinstance(e.func, ast.Attribute) and e.func.attr in CONTAINER_METHODS:
